@@ -96,6 +96,136 @@ def occ_twin(kind_i: int, nA: int, nB: int) -> bool:
     return False
 '''
 
+OCC2 = r'''
+from engine.hsupport import *
+from engine import standins
+from pynenc.invocation.status import InvocationStatus as St
+from pynenc.trigger.trigger_builder import TriggerBuilder
+standins.install_sync_history()
+LAST_DETAIL = None
+
+def src(x: int = 0) -> int:
+    if x < 0:
+        raise ValueError("negative", x)
+    return x * 10
+
+def d_reg(p: str = "") -> int:
+    return 0
+def d_succ(p: str = "") -> int:
+    return 0
+def d_res(p: int = 0) -> int:
+    return 0
+def d_exc(p: str = "") -> int:
+    return 0
+
+def args_by_invocation(ctx):
+    return {"p": ctx.invocation_id}
+
+def args_by_result(ctx):
+    return {"p": ctx.result}
+
+def world2(kind):
+    reset_uuid()
+    app = mk_app(kind, app_id="c13s" + kind)
+    s = app.task(src)
+    warm_task(s)
+    by_inv = args_by_invocation
+    deps = {
+        "d_reg": app.task(triggers=TriggerBuilder().on_status(s, St.REGISTERED).with_args_from_status(by_inv))(d_reg),
+        "d_succ": app.task(triggers=TriggerBuilder().on_status(s).with_args_from_status(by_inv))(d_succ),
+        "d_res": app.task(triggers=TriggerBuilder().on_any_result(s).with_args_from_result(args_by_result))(d_res),
+        "d_exc": app.task(triggers=TriggerBuilder().on_exception(s).with_args_from_exception(by_inv))(d_exc),
+    }
+    for t in deps.values():
+        warm_task(t)
+    app.register_deferred_triggers()
+    launches = []
+    app.trigger.execute_task = lambda task_id, arguments=None: launches.append((task_id.func_name, (arguments or {}).get("p")))
+    return app, s, launches
+
+def scenario2(kind, nsingle, nbatch, fail_mask, run_mask, iters):
+    """occurrences produced by the real paths: single calls and a parallelize batch (status REGISTERED reported per call / per batch),
+    then some invocations are executed (status changes, result or exception); 1-2 trigger loop iterations (the second one must add nothing)"""
+    global LAST_DETAIL
+    app, s, launches = world2(kind)
+    xs = [(-(i + 1) if (fail_mask >> i) & 1 else i + 1) for i in range(nsingle + nbatch)]
+    invs = [s(x) for x in xs[:nsingle]]
+    if nbatch:
+        invs += list(s.parallelize([(x,) for x in xs[nsingle:]]).invocations)
+    ctx = runner_ctx("r1")
+    ran = []
+    for i, inv in enumerate(invs):
+        if (run_mask >> i) & 1:
+            app.orchestrator.set_invocation_status(inv.invocation_id, St.PENDING, ctx)
+            obj = app.state_backend.get_invocation(inv.invocation_id)
+            try:
+                obj.run(ctx)
+            except ValueError:
+                pass
+            ran.append(i)
+    app.trigger.trigger_loop_iteration()
+    n1 = len(launches)
+    if iters == 2:
+        app.trigger.trigger_loop_iteration()
+    ids = [inv.invocation_id for inv in invs]
+    exp = {
+        "d_reg": sorted(ids),
+        "d_succ": sorted(ids[i] for i in ran if xs[i] > 0),
+        "d_res": sorted(xs[i] * 10 for i in ran if xs[i] > 0),
+        "d_exc": sorted(ids[i] for i in ran if xs[i] < 0),
+    }
+    got = {k: sorted(p for (t, p) in launches if t == k) for k in exp}
+    why = None
+    for k in exp:
+        if got[k] != exp[k]:
+            kind_of = {"d_reg": "status-REGISTERED", "d_succ": "status-SUCCESS", "d_res": "result", "d_exc": "exception"}[k]
+            why = "C13:" + kind_of + "-occurrence:" + ("not-launched" if len(got[k]) < len(exp[k]) else "launched-twice" if len(got[k]) > len(exp[k]) else "wrong-arguments")
+            break
+    if why is None and len(launches) != n1:
+        why = "C13:second-iteration-launched-again"
+    LAST_DETAIL = {"kind": kind, "singles": nsingle, "batch": nbatch, "xs": xs, "ran": ran, "iterations": iters,
+                   "launch_counts": {k: len(v) for k, v in got.items()}, "expected_counts": {k: len(v) for k, v in exp.items()}, "why": why}
+    return why is None
+
+def status_occurrences___KIND_____NB__(nsingle: int, fail_mask: int, run_mask: int, iters: int) -> bool:
+    """
+    pre: 0 <= nsingle <= 2 and 0 <= fail_mask <= 7 and 0 <= run_mask <= 7 and 1 <= iters <= 2
+    post: _
+    """
+    nbatch = __NB__
+    nsingle = pick(nsingle, 0, 2); fail_mask = pick(fail_mask, 0, 7); run_mask = pick(run_mask, 0, 7); iters = pick(iters, 1, 2)
+    with NoTracing():
+        return scenario2(["mem", "sqlite"][__KIND__], nsingle, nbatch, fail_mask, run_mask, iters)
+'''
+
+OCC2X = r'''
+def status_twin(nsingle: int, nbatch: int) -> bool:
+    """
+    pre: 0 <= nsingle <= 2 and 0 <= nbatch <= 3
+    post: _
+    """
+    nsingle = pick(nsingle, 0, 2); nbatch = pick(nbatch, 0, 3)
+    with NoTracing():
+        scenario2("mem", nsingle, nbatch, 0, 1, 1)
+    return False
+
+def status_canary_batch_first_only(nbatch: int) -> bool:
+    """
+    pre: 2 <= nbatch <= 3
+    post: _
+    """
+    # canary: a status report that records only the first invocation of a batch must be refuted
+    import pynenc.trigger.base_trigger as bt
+    orig = bt.BaseTrigger.report_tasks_status
+    bt.BaseTrigger.report_tasks_status = lambda self, invocation_ids, status=None: orig(self, list(invocation_ids)[:1], status)
+    nbatch = pick(nbatch, 2, 3)
+    try:
+        with NoTracing():
+            return scenario2("mem", 0, nbatch, 0, 0, 1)
+    finally:
+        bt.BaseTrigger.report_tasks_status = orig
+'''
+
 CLAIM = r'''
 from engine.hsupport import *
 from engine import standins, coop
@@ -212,6 +342,16 @@ def run(ctx: Ctx) -> None:
     from props import C13_cron
     C13_cron.run(ctx)
     ctx.ch_batch("c13occ", OCC, [Cond("occurrences", "confirm", 900, keyfn=_key_from_replay), Cond("occ_twin", "refute", 60)])
+    head2, f2 = OCC2.split("def status_occurrences___KIND_____NB__")
+    f2 = "def status_occurrences___KIND_____NB__" + f2
+    ssrc, sconds = head2, []
+    for kind in (0, 1):
+        for nb in range(4):
+            ssrc += f2.replace("__KIND__", str(kind)).replace("__NB__", str(nb))
+            sconds.append(Cond(f"status_occurrences_{kind}_{nb}", "confirm", 1500, keyfn=_key_from_replay))
+    ctx.ch_batch("c13status", ssrc + OCC2X, sconds + [Cond("status_twin", "refute", 60), Cond("status_canary_batch_first_only", "refute", 120)])
+    ctx.bounds["status / result / exception occurrences"] = ("0-2 single calls + a parallelize batch of 0-3 of one source task, any subset executed (success or ValueError), "
+                                                             "triggers on status REGISTERED, status SUCCESS, any result, any exception with arguments from the occurrence; 1-2 loop iterations; both stores")
     for kind, name in ((0, "mem"), (1, "sqlite")):
         src = CLAIM.replace("__NEVER__", "False").replace("__KIND__", str(kind))
         ctx.ch_batch(f"c13claim_{name}", src, [Cond(f"claim2_{kind}", "confirm", 600, keyfn=_key_from_replay)])
